@@ -1440,6 +1440,24 @@ func parseDeps(cfg map[string]any) (main string, deps map[string][][]c18Join) {
 		}
 		ds := fmt.Sprint(m["dataset"])
 		deps[ds] = append(deps[ds], joins)
+		// the datasets a path passes through are dependencies too (the hub tracks them without being told): a change
+		// there reaches the main entities through the rest of the path
+		for i := 0; i+1 < len(joins); i++ {
+			mid := joins[i].DS
+			if mid == main {
+				continue
+			}
+			rest := joins[i+1:]
+			dup := false
+			for _, have := range deps[mid] {
+				if fmt.Sprint(have) == fmt.Sprint(rest) {
+					dup = true
+				}
+			}
+			if !dup {
+				deps[mid] = append(deps[mid], rest)
+			}
+		}
 	}
 	return
 }
